@@ -200,3 +200,9 @@ META["C05"]["rule"] += (" held profile: reader tasks are parked at the yield hoo
 META["C13"]["rule"] += (" muxer-spot profile: the real muxer (mostly Low-Latency) is the origin and 1-3 of the first 40 responses are damaged at the "
                         "byte level, so that e.g. a later Low-Latency playlist loses its preload hint, its parts or its server-control line.")
 META["C13"]["real"] = CLI_REAL + ["muxer-spot profile: the real gohlslib Muxer as origin"]
+
+META["C04"]["rule"] += (" cross-burst profile: the writer (whole script, back to back) and 2-4 readers alternating between the streams' playlists run "
+                        "truly concurrently in one step; per reader the last listed media sequence number must never decrease from one "
+                        "response to the next, whatever the stream (interleavings are the Go runtime's; judged at rest).")
+META["C20"]["rule"] += (" queue-burst profile: producer and consumer hammer the real queue truly concurrently in one step (2000-20000 hand-overs); at rest a "
+                        "consumer waiting although completed pushes outnumber pulls, or a producer waiting below its threshold, is a lost wake-up.")
